@@ -475,6 +475,11 @@ func (sc *StorageCar) Finalize() error {
 	}
 
 	if sc.opts.WriteAsCarV1 {
+		// Nothing to write for a CARv1, but the CAR is complete: refuse further use,
+		// exactly as after finalizing a CARv2.
+		sc.mu.Lock()
+		defer sc.mu.Unlock()
+		sc.closed = true
 		return nil
 	}
 
